@@ -17,6 +17,7 @@ structure Seen where
   mac : Nat
   est : Bool          -- state shown as EST
   hasIp : Bool        -- an address is shown
+  addr : Option Nat   -- … which one (last octet)
   raw : String
   deriving DecidableEq, Repr
 
@@ -33,6 +34,9 @@ structure Obs where
   sent : List Sent
   free : Nat
   alloc : Nat
+  /-- the pool's own view: (session, address) for every live session the pool records an address for; its free list -/
+  held : List (Nat × Nat)
+  freeL : List Nat
   deriving DecidableEq, Repr
 
 structure Mon where
@@ -126,6 +130,31 @@ def v4 (mn : Mon) (i : In) (o : Obs) : List Verdict :=
   (if mn.total ≠ 0 ∧ o.free + o.alloc ≠ mn.total then
     [("conservation", "none", s!"free {o.free} + allocated {o.alloc} ≠ pool size {mn.total}")] else [])
 
+/-- does the pool's view agree with the address this session shows? -/
+def poolAgrees (o : Obs) (x : Seen) : Bool :=
+  match x.addr with
+  | some a => o.held.contains (x.sid, a)
+  | none => !(o.held.any (·.1 == x.sid))
+
+/-- (C01/C05) what a session shows as its address is the pool's entry for it … -/
+def v5a (o : Obs) : List Verdict :=
+  o.seen.filterMap fun x =>
+    if poolAgrees o x then none else
+      some ("pool-entry", "none", s!"session {x.raw}: the address it shows is not what the pool records for it")
+
+/-- … no address is recorded for two live sessions … -/
+def v5b (o : Obs) : List Verdict :=
+  if (o.held.map (·.2)).Nodup then [] else
+    [("unique", "none", s!"an address is recorded for two live sessions: {o.held}")]
+
+/-- … and no held address is on the free list -/
+def v5c (o : Obs) : List Verdict :=
+  o.held.filterMap fun p =>
+    if o.freeL.contains p.2 then some ("held-free", "none", s!"address {p.2} is held by session {p.1} and on the free list")
+    else none
+
+def v5 (o : Obs) : List Verdict := v5a o ++ v5b o ++ v5c o
+
 def monitorCore (mn : Mon) (i : In) (o : Obs) : Mon × List Verdict :=
   let owner := owner1 mn i o
   let auth := auth1 mn i o
@@ -134,7 +163,7 @@ def monitorCore (mn : Mon) (i : In) (o : Obs) : Mon × List Verdict :=
              authOK := auth.filter (fun sid => live.contains sid),
              prev := o.seen,
              stranded := mn.stranded + sweptNow mn o i },
-   v1 auth o ++ v2 auth o ++ v3 mn i o ++ v4 mn i o)
+   v1 auth o ++ v2 auth o ++ v3 mn i o ++ v4 mn i o ++ v5 o)
 
 /-! ### the model's own observation, structured -/
 
@@ -153,7 +182,7 @@ def insertSorted (x : Sess) : List Sess → List Sess
 def sortedSess (s : Srv) : List Sess := s.sessions.foldl (fun acc p => insertSorted p.2 acc) []
 
 def toSeen (x : Sess) : Seen :=
-  { sid := x.id, mac := x.mac, est := decide (x.state = .est), hasIp := x.ip.isSome, raw := showSess x }
+  { sid := x.id, mac := x.mac, est := decide (x.state = .est), hasIp := x.ip.isSome, addr := x.ip, raw := showSess x }
 
 def plainSent (sid : Nat) (kind : String) : Option Sent :=
   some { sid := sid, pads := false, ipcpAns := false, kind := kind }
@@ -174,7 +203,9 @@ def toSent : Out → Option Sent
 
 def obsOf (s : Srv) (outs : List Out) : Obs :=
   { seen := (sortedSess s).map toSeen, sent := outs.filterMap toSent,
-    free := s.avail.length, alloc := s.alloc.length }
+    free := s.avail.length, alloc := s.alloc.length,
+    held := (sortedSess s).filterMap fun x => (AMap.lookup s.alloc x.serial).map fun a => (x.id, a),
+    freeL := s.avail }
 
 /-- model and monitor side by side: the verdicts the monitor raises on the model's own observations -/
 def runBoth : Srv → Mon → List In → List Verdict
